@@ -121,6 +121,11 @@ func c19LoopExec(op string) string {
 
 // implonly files kind indent maps cut
 func c19Exec(op string) string {
+	if strings.HasPrefix(op, "xtok ") {
+		// a whole multi-document file through the tokenizer model alone (c02.go: reference =
+		// encoding/xml on the same bytes, inside the subset tokModelSupports describes)
+		return xtokExec(op)
+	}
 	if strings.HasPrefix(op, "xfile ") || strings.HasPrefix(op, "jfile ") {
 		return c19LoopExec(op)
 	}
@@ -363,6 +368,10 @@ func firstLine(s string) string {
 }
 
 func c19Describe(op string) string {
+	if strings.HasPrefix(op, "xtok ") {
+		c, _ := newCur(op)
+		return fmt.Sprintf("tokenizer model vs encoding/xml on the concatenated documents file=%q", c.str())
+	}
 	if strings.HasPrefix(op, "xfile ") || strings.HasPrefix(op, "jfile ") {
 		c, name := newCur(op)
 		if name == "xfile" {
@@ -384,6 +393,9 @@ func c19Describe(op string) string {
 }
 
 func c19Judge(op, impl, model string) Verdict {
+	if strings.HasPrefix(op, "xtok ") {
+		return xtokcatJudge(op, impl, model)
+	}
 	if strings.HasPrefix(op, "xfile ") || strings.HasPrefix(op, "jfile ") {
 		_, name := newCur(op)
 		v := Verdict{Tags: []string{name}}
@@ -427,6 +439,122 @@ func c19Judge(op, impl, model string) Verdict {
 		v.Sig = "files:" + strings.Join(strings.Fields(ip[1])[:3], "-")
 	}
 	return v
+}
+
+// xtokcatJudge: xtokJudge (c02.go) on a file of several documents, with its own counters:
+// xtokcat = comparisons asked for, xtokcat:skip = outside the tokenizer model's subset (or the
+// driver skipped), xtokcat:err = both sides must reject the bytes, xtokcat:roots0/1/2+ = how
+// many top-level elements the real tokenizer saw before it stopped.
+func xtokcatJudge(op, impl, model string) Verdict {
+	v := xtokJudge(op, impl, model)
+	v.Tags = append(v.Tags, "xtokcat")
+	switch {
+	case v.Skipped:
+		v.Tags = append(v.Tags, "xtokcat:skip")
+		if f := strings.Fields(impl); len(f) == 2 && f[0] == "tokskip" {
+			v.Tags = append(v.Tags, "xtokcat:skip:"+f[1])
+		}
+	case impl == "tok err":
+		v.Tags = append(v.Tags, "xtokcat:err")
+	default:
+		v.Tags = append(v.Tags, "xtokcat:compared")
+	}
+	c, _ := newCur(op)
+	doc := c.str()
+	if c.err == nil {
+		raw, _ := allTokens([]byte(doc), true)
+		depth, roots := 0, 0
+		for _, t := range raw {
+			switch t.(type) {
+			case xml.StartElement:
+				if depth == 0 {
+					roots++
+				}
+				depth++
+			case xml.EndElement:
+				depth--
+			}
+		}
+		switch {
+		case roots >= 2:
+			v.Tags = append(v.Tags, "xtokcat:roots2+")
+		default:
+			v.Tags = append(v.Tags, fmt.Sprintf("xtokcat:roots%d", roots))
+		}
+	}
+	return v
+}
+
+// xmlFileBytes: what Maps.XmlFile / Maps.XmlFileIndent write for these Maps (XmlString /
+// XmlStringIndent: every Map's Xml() / XmlIndent() output, nothing between two documents).
+func xmlFileBytes(l []interface{}, indent bool, ind string) (string, bool) {
+	var ms mxj.Maps
+	for _, e := range l {
+		m, ok := e.(map[string]interface{})
+		if !ok {
+			return "", false
+		}
+		ms = append(ms, mxj.Map(m))
+	}
+	mxj.XMLEscapeChars(true)
+	var s string
+	var err error
+	if indent {
+		s, err = ms.XmlStringIndent("", ind)
+	} else {
+		s, err = ms.XmlString()
+	}
+	return s, err == nil
+}
+
+// c19CatGen: a file of 2-4 Xml() / XmlIndent() outputs of XML-shaped Maps, joined as the file
+// writers join them (nothing between documents; three in ten with the "\n" a caller of
+// XmlWriter would put), one in eight cut at a random byte.
+func c19CatGen(r *Rng) (string, bool) {
+	nm := 2 + r.Intn(3)
+	indent := r.P(35)
+	ind := r.Pick([]string{"  ", "", "\t", " "})
+	sep := ""
+	if r.P(30) {
+		sep = "\n"
+	}
+	mxj.XMLEscapeChars(true)
+	var parts []string
+	for i := 0; i < nm; i++ {
+		m := mxj.Map(r.xmlShapedMap())
+		var x []byte
+		var err error
+		if indent {
+			x, err = m.XmlIndent("", ind)
+		} else {
+			x, err = m.Xml()
+		}
+		if err != nil {
+			return "", false
+		}
+		parts = append(parts, string(x))
+	}
+	content := strings.Join(parts, sep)
+	if r.P(12) && len(content) > 0 {
+		content = content[:r.Intn(len(content))]
+	}
+	return content, true
+}
+
+// c19Fixed: concatenated documents for the tokenizer comparison (every separator the loop
+// generator uses, junk after the last document, a cut inside the second document).
+func c19Fixed() []string {
+	docs := []string{
+		`<a/><b/>`, "<a>1</a>\n<b>2</b>", `<a>x</a><a>y</a><a>z</a>`, "<a k=\"v\"><b>1</b></a><c><d/></c>\n",
+		"<!-- c -->\n<a>1</a><!-- between --><b>2</b><?pi x?>\n<c/>  \n", `<a>1</a><b>2</b>junk`, `<a>1</a></x>`,
+		`<a>1</a><b`, `<a>1</a><b>2`, `<a>1</a>&<b/>`, `<a>1</a><!--`, "<doc>\n  <a>1</a>\n</doc><doc>\n  <a>2</a>\n</doc>",
+		`<a>&lt;&amp;</a><a>&#x41;</a>`, "\n", ``,
+	}
+	var ops []string
+	for _, d := range docs {
+		ops = append(ops, "xtok "+encStr(d))
+	}
+	return ops
 }
 
 // xmlShapedMap: a Map that is the decoding of some document (one root key).
@@ -516,9 +644,17 @@ func c19LoopGen(r *Rng) string {
 
 func c19Gen(r *Rng, n int) []string {
 	var ops []string
+	// the whole files of this batch once more, as byte strings for the tokenizer model (appended
+	// after the n cases above them, so those are the same cases with or without this comparison)
+	var cat []string
 	for len(ops) < n {
 		if r.P(50) {
-			ops = append(ops, c19LoopGen(r))
+			op := c19LoopGen(r)
+			ops = append(ops, op)
+			if strings.HasPrefix(op, "xfile ") {
+				f := strings.Fields(op)
+				cat = append(cat, "xtok "+f[len(f)-1])
+			}
 			continue
 		}
 		kind := r.Pick([]string{"xml", "json", "json", "gob"})
@@ -537,18 +673,36 @@ func c19Gen(r *Rng, n int) []string {
 			cut = 1 + r.Intn(200)
 		}
 		ops = append(ops, fmt.Sprintf("implonly files %s %d %s %d", kind, b2i(r.Bool()), encJ(l), cut))
+		if kind == "xml" {
+			// the bytes XmlFile / XmlFileIndent write for these Maps (same indent string and cut as
+			// c19Exec uses for this op line)
+			last := ops[len(ops)-1]
+			indent := strings.HasPrefix(last, "implonly files xml 1 ")
+			if content, ok := xmlFileBytes(l, indent, []string{"  ", "", "\t", " "}[hashStr(strings.Join(strings.Fields(last), " "))%4]); ok {
+				if cut > 0 && cut-1 < len(content) {
+					content = content[:cut-1]
+				}
+				cat = append(cat, "xtok "+encStr(content))
+			}
+		}
 	}
-	return ops
+	for i := n / 8; i > 0; i-- {
+		if content, ok := c19CatGen(r); ok {
+			cat = append(cat, "xtok "+encStr(content))
+		}
+	}
+	return append(ops, cat...)
 }
 
 func init() {
 	register(&Prop{
 		ID:        "C19",
-		Rule:      "lists of 1-4 Maps: XML-shaped (decoded from generated documents, escaping on) through XmlFile/XmlFileIndent and back, JSON Maps (non-null scalars; strings with braces, quotes, backslashes, trailing backslash; empty objects) through JsonFile/JsonFileIndent and back, both also through the Raw readers; gob and Copy round trips; 30% of the files truncated at a random offset (Maps of the complete documents, then an error); whole files (0-4 generated XML documents / JSON objects with separators, 25% cut at a random byte, 10% followed by junk) read by NewMapsFromXmlFile / NewMapsFromJsonFile (and the Raw forms) beside the Lean file loops readMapsXml (on the real token stream of the file) / readMapsJson (on the bytes); scratch files under the system temp dir, removed after each case; non-trivial = every case of the first kind, a file yielding at least one Map for the second; distinct = distinct op lines",
+		Rule:      "lists of 1-4 Maps: XML-shaped (decoded from generated documents, escaping on) through XmlFile/XmlFileIndent and back, JSON Maps (non-null scalars; strings with braces, quotes, backslashes, trailing backslash; empty objects) through JsonFile/JsonFileIndent and back, both also through the Raw readers; gob and Copy round trips; 30% of the files truncated at a random offset (Maps of the complete documents, then an error); whole files (0-4 generated XML documents / JSON objects with separators, 25% cut at a random byte, 10% followed by junk) read by NewMapsFromXmlFile / NewMapsFromJsonFile (and the Raw forms) beside the Lean file loops readMapsXml (on the real token stream of the file) / readMapsJson (on the bytes); scratch files under the system temp dir, removed after each case; the bytes of those whole XML files, of what XmlFile/XmlFileIndent write for the Map lists (XmlString/XmlStringIndent: nothing between documents) and of 2-4 further Xml()/XmlIndent() outputs of XML-shaped Maps concatenated (nothing or a newline between, one in eight cut), plus fixed concatenations, also go through the tokenizer model (driver op xtok) and are compared token by token with encoding/xml on the concatenated bytes inside the model's subset (no directive, ASCII names; tags xtokcat, xtokcat:compared/err/skip, xtokcat:roots*); non-trivial = every case of the first kind, a file yielding at least one Map for the second, a byte string the real tokenizer accepted for the third; distinct = distinct op lines",
 		Gen:       c19Gen,
 		Exec:      c19Exec,
 		Judge:     c19Judge,
 		Describe:  c19Describe,
+		Fixed:     c19Fixed,
 		QuickN:    1500,
 		ThoroughN: 60000,
 	})
